@@ -36,6 +36,8 @@ struct HistInstance
 {
     rule : Ticket,
     keys : Vec<Ticket>,
+    /* the harness's own list of what was recorded */
+    pairs : Vec<(Ticket, FileStateVec)>,
     value : RuleHistory,
 }
 
@@ -45,16 +47,18 @@ fn gen_history(rng : &mut Rng, min_bytes : usize) -> HistInstance
     let mut n = match rng.below(6) { 0 => 0, 1 => 1, 2 => rng.range(2, 5), _ => rng.range(0, 50) };
     let mut rh = RuleHistory::new();
     let mut keys = vec![];
+    let mut pairs = vec![];
     let n_targets = rng.range(1, 8);
     if min_bytes > 0 { n = min_bytes / (40 + 41 * n_targets) + 2; }
     for _ in 0..n
     {
         let k = ticket(rng);
         let v = FileStateVec::from_ticket_vec((0..n_targets).map(|_| ticket(rng)).collect());
-        rh.insert(k.clone(), v).unwrap();
+        rh.insert(k.clone(), v.clone()).unwrap();
+        pairs.push((k.clone(), v));
         keys.push(k);
     }
-    HistInstance{ rule : ticket(rng), keys : keys, value : rh }
+    HistInstance{ rule : ticket(rng), keys : keys, pairs : pairs, value : rh }
 }
 
 struct TableInstance
@@ -144,7 +148,8 @@ fn read_back(kind : &str, w : &World, bytes : &[u8], hist : Option<&HistInstance
                 Err(_) => ReadOutcome::Rejected,
                 Ok(v) => match hist
                 {
-                    Some(h) if v == h.value && h.keys.iter().all(|k| v.get_file_state_vec(k) == h.value.get_file_state_vec(k)) => ReadOutcome::AcceptedSame,
+                    Some(h) if v == h.value && h.keys.iter().all(|k| v.get_file_state_vec(k) == h.value.get_file_state_vec(k))
+                        && h.pairs.iter().all(|(k, want)| v.get_file_state_vec(k) == Some(want)) => ReadOutcome::AcceptedSame,
                     _ => ReadOutcome::AcceptedDifferent,
                 },
             }
